@@ -15,7 +15,7 @@
 (* (SlimAPI): ks, vals, hasvals, o, R (retained indexes), rp (position of  *)
 (* key i in R or 0), nodes (Model table), valset.                          *)
 (***************************************************************************)
-EXTENDS SlimEncode
+EXTENDS SlimWire
 
 Report(l, code, bad) ==
   IF bad = {} THEN TRUE
@@ -206,6 +206,8 @@ EncodingDiff(c, e) ==
                                         /\ BMSame(m.leaves.position, e.leaves.position)
         THEN {"Leaves"} ELSE {})
   \cup (IF e.unknown # 0 THEN {"unknown-fields"} ELSE {})
+  \* Level C: the bytes Marshal returned are Stream(Encode(c)) (logged up to 2 KiB, fresh tries)
+  \cup (IF Len(e.wire) > 0 /\ e.wire # Stream(m) THEN {"wire"} ELSE {})
 
 \* ---- Stat (C18) -------------------------------------------------------------
 StatBad(c, e) ==
